@@ -151,12 +151,12 @@ func (rt *runtime) tryCatchEvaluate(inner func() Value) (tryValue Value, isExcep
 				// function panics with to halt the script, is not a JavaScript
 				// exception: it propagates unchanged and try/catch/finally do
 				// not get to see it.
-				if _, ok := caught.(goruntime.Error); ok {
+				if runtimeError, ok := caught.(goruntime.Error); ok {
 					// A Go run-time error inside a built-in is a bug in otto,
 					// not a request to stop the script: it stays what it has
 					// always been here, a TypeError the script can catch.
 					isException = true
-					tryValue = toValue(caught)
+					tryValue = objectValue(rt.newTypeError(stringValue(runtimeError.Error())))
 					return
 				}
 				converted := false
